@@ -321,3 +321,36 @@ def r12_9(ctx):
     from .c05 import r05_2
 
     r05_2(ctx)
+
+
+@rule("R12.10", "C12", "what is folded away leaves nothing behind: the dead arm of a constant ?: is taken out of the holder whatever kind of operand it is; pending effects of an earlier (failed) behaviour never reach the next one", min_instances=20)
+def r12_10(ctx):
+    idx = get_index(ctx.env)
+    fi = idx.func("RZILTransformer.simplify_conditional_expr")
+    kinds = sorted(c for c in idx.subclasses("Pure") if c in idx.classes)
+    ctx.need(len(kinds) >= 15, f"value classes: only {len(kinds)} found")
+    for cname in kinds:
+        for cond_val, dead in ((1, "items[2]"), (0, "items[1]")):
+            r = Runner(idx, keep_real=("simplify_conditional_expr",))
+            removed = []
+
+            def args(cname=cname, cond_val=cond_val):
+                cond = AObj("Number", {"value": cond_val, "name": "c", "isa_name": None, "inlined": True, "reads": 0, "value_type": mk_vt("tc", True, 32)}, label="c")
+                a = r.pure("items[1]", cls=cname)
+                b = r.pure("items[2]", cls=cname)
+                for lbl in ("items[1]", "items[2]"):
+                    r.stubs[(lbl, "get_name")] = "name_of_" + lbl
+                return [[cond, a, b]]
+
+            f2, outs = r.run("simplify_conditional_expr", args, args_list=True)
+            ok = bool(outs)
+            obs = []
+            for o in outs:
+                rm = [to_text(e[2][0]) for e in o.events if e[0] == "call" and str(e[1]).endswith("rm_op_by_name") and e[2]]
+                obs.append(sorted(rm))
+                if o.kind == "raise" or ("name_of_" + dead) not in rm:
+                    ok = False
+            ctx.check(f"constant ?: [{'then' if cond_val else 'else'} arm live, dead arm is a {cname}] removes the dead arm", ok, f"rm_op_by_name(name of {dead}) on every path", str(obs)[:120], fn_where(idx, fi), nontrivial=False)
+    from .c11 import r11_6
+
+    r11_6(ctx)
